@@ -7,7 +7,8 @@ verus! {
 global size_of usize == 8;
 
 pub enum CChar { Char(char), Raw(u64) }
-pub enum IntKind { U8, Other }
+#[derive(Clone, Copy, PartialEq, Eq, Structural)]
+pub enum IntKind { Bool, U8, Other }
 pub enum FloatKind { Float16, Float, Double, LongDouble, Float128 }
 pub enum TypeKind { Int(IntKind), Float(FloatKind), Other }
 pub enum ParseError { Recurse, Continue }
@@ -61,5 +62,15 @@ impl CallbackCursor {
     #[verifier::external_body] pub fn has_next(&self) -> (r: bool) ensures r == (self.remaining() > 0) { unimplemented!() }
     #[verifier::external_body] pub fn next_item(&mut self) -> (r: &'static Callback) requires old(self).remaining() > 0, ensures final(self).remaining() == old(self).remaining() - 1 { unimplemented!() }
 }
+
+// ---- Var::parse: the value a variable's initialiser is evaluated to (libclang's evaluator; results uninterpreted)
+#[verifier::external_body] pub struct EvalResult { _p: core::marker::PhantomData<()> }
+impl EvalResult {
+    #[verifier::external_body] pub fn as_int(&self) -> (r: Option<i64>) { unimplemented!() }
+    #[verifier::external_body] pub fn as_double(&self) -> (r: Option<f64>) { unimplemented!() }
+    #[verifier::external_body] pub fn as_literal_string(&self) -> (r: Option<Vec<u8>>) { unimplemented!() }
+}
+impl clang::Cursor { #[verifier::external_body] pub fn evaluate(&self) -> (r: Option<EvalResult>) { unimplemented!() } }
+#[verifier::external_body] pub fn get_integer_literal_from_cursor(cursor: &clang::Cursor) -> (r: Option<i64>) { unimplemented!() }
 
 } // verus!
